@@ -514,6 +514,30 @@ def v_append(ex, st, o, args, kwargs, node):
     return None
 
 
+def vec_median(ex, st, v):
+    """median of a vector: an abstract value per vector object (the same object always has the same median),
+    bounded by the extreme elements when the vector is non-empty"""
+    used(ex, "median() abstract: one value per vector, between its minimum and maximum")
+    key = "median:%d" % id(v.at)
+    hit = st.ghost.get(key)
+    if hit is not None and hit[1] is v.at:
+        return hit[0]
+    m = fresh(R, "median")
+    st.ghost = dict(st.ghost)
+    st.ghost[key] = (m, v.at)
+    return m
+
+
+@vm("median")
+def v_median(ex, st, o, args, kwargs, node):
+    return vec_median(ex, st, st.get(o))
+
+
+@builtin("median_of")
+def sp_median_of(ex, st, args, kwargs, node):
+    return vec_median(ex, st, st.get(args[0]))
+
+
 @vm("mean")
 def v_mean(ex, st, o, args, kwargs, node):
     v = st.get(o)
@@ -635,6 +659,17 @@ _lift1("numpy.sqrt", _sqrt)
 _lift1("math.sqrt", _sqrt)
 _lift1("numpy.abs", lambda ex, st, x: sc_abs(x))
 _lift1("numpy.absolute", lambda ex, st, x: sc_abs(x))
+def _normcdf(ex, st, x):
+    used(ex, "scipy.stats.norm.cdf abstract (an uninterpreted function of its argument)")
+    f = ex.ctx.uf("normcdf", R, R)
+    if isinstance(x, NF):
+        return NF(x.null, f(x.val))
+    return f(to_real(x))
+
+
+_lift1("scipy.stats.norm.cdf", _normcdf)
+_lift1("normcdf", _normcdf)
+_lift1("sqrt", _sqrt)
 _lift1("numpy.isfinite", lambda ex, st, x: z3.Not(x.null) if isinstance(x, NF) else True)
 
 
@@ -1242,3 +1277,12 @@ def aug_masked(ex, st, n):
             _b(iv.at(k)), coerce_elem(ov, scalar_binop(ex, s, op, ov.at(k), vv, None)), ov.at(k))))
         outs.append(s)
     return outs
+
+
+@builtin("count")
+def sp_count(ex, st, args, kwargs, node):
+    from .lib_obj import str_count
+    r = str_count(ex, st.get(args[0]), st.get(args[1]))
+    if is_z3(r):
+        st.assume(r >= 0)
+    return r
